@@ -7,6 +7,9 @@ open ShellOp ShellOp.Util ShellOp.RateLimit
 structure St where
   lim : Lim := createRateLimiter none
   s : LState := init (createRateLimiter none)
+  /-- the hooks of one hooks directory (`hookset` / `hookload`): their limiters and limiter states -/
+  lims : List Lim := []
+  ss : List LState := []
 
 def optInt? (key : String) (toks : List String) : Option (Option Int) :=
   match kv? key toks with
@@ -52,6 +55,52 @@ def step (st : St) (toks : List String) : St × String :=
         | _, _ => some (i.getD 0, b.getD 0)
       let l := hookLimiter { settings := settings, bindings := ks }
       ({ lim := l, s := init l }, s!"inf={if l.inf then 1 else 0} I={if l.inf then 0 else l.I} B={l.B}")
+    | _, _, _ => (st, "bad-op")
+  | "hookcfg-after" :: rest =>
+    -- at the end of a run the hook's limiter is still the one `Hook.LoadConfig` built (nothing re-tunes it)
+    match optInt? "i" rest, optInt? "b" rest, (kv? "binds" rest).bind bindKinds? with
+    | some i, some b, some ks =>
+      let settings : Option (Int × Int) :=
+        match i, b with
+        | none, none => none
+        | _, _ => some (i.getD 0, b.getD 0)
+      let l := hookLimiter { settings := settings, bindings := ks }
+      (st, s!"inf={if l.inf then 1 else 0} I={if l.inf then 0 else l.I} B={l.B}")
+    | _, _, _ => (st, "bad-op")
+  | ["hookset", n] =>
+    -- a hooks directory with n executables: the manager loads every one of them
+    match (kv? "n" [n]).bind String.toNat? with
+    | some k => ({ st with lims := [], ss := [] }, s!"loaded={k}")
+    | none => (st, "bad-op")
+  | "hookload" :: rest =>
+    -- the next hook of the directory (`Manager.loadHook`): its limiter comes from ITS settings, whatever its name
+    match (kv? "h" rest).bind String.toNat?, kv? "name" rest, optInt? "i" rest, optInt? "b" rest with
+    | some h, some name, some i, some b =>
+      if h != st.lims.length then (st, "bad-op") else
+      let settings : Option (Int × Int) :=
+        match i, b with
+        | none, none => none
+        | _, _ => some (i.getD 0, b.getD 0)
+      let l := (loadHooks [(name, { settings := settings, bindings := [.onStartup] })]).headD (createRateLimiter none)
+      ({ st with lims := st.lims ++ [l], ss := st.ss ++ [init l] },
+        s!"inf={if l.inf then 1 else 0} I={if l.inf then 0 else l.I} B={l.B}")
+    | _, _, _, _ => (st, "bad-op")
+  | "hreq" :: rest =>
+    -- a request on the limiter of hook h of the directory
+    match (kv? "h" rest).bind String.toNat?, (kv? "t" rest).bind int?, kv? "delay" rest with
+    | some h, some t, some d =>
+      if h ≥ st.lims.length then (st, "bad-op") else
+      let (ss', g) := reserveAt st.lims st.ss h t
+      let st' := { st with ss := ss' }
+      match g, d with
+      | none, "refused" => (st', "ok")
+      | some g, d =>
+        match int? d with
+        | some di =>
+          let diff := (g - t) - di
+          if -1000 ≤ diff ∧ diff ≤ 1000 then (st', "ok") else (st', s!"differs model-delay={g - t}")
+        | none => (st', s!"differs model-delay={g - t}")
+      | none, _ => (st', "differs model=refused")
     | _, _, _ => (st, "bad-op")
   | ["operator-webhooks", n] =>
     -- every admission request is answered (allowed) after exactly one execution of its hook
